@@ -14,7 +14,8 @@ class TransformWrapperBase(KDWrapper):
     def _getitem(self, item, idx, ctx=None):
         if self.seed is not None:
             rng = np.random.default_rng(seed=self.seed + idx)
-            if isinstance(self.transform, (KDComposeTransform, KDStochasticTransform)):
+            # every KDTransform forwards set_rng to its members (compose, patchwise, scheduled, random apply, ...)
+            if isinstance(self.transform, KDTransform):
                 self.transform.set_rng(rng)
         if isinstance(self.transform, KDTransform):
             return self.transform(item, ctx=ctx)
